@@ -200,8 +200,8 @@ def shard(shard, nshards, tier, seed):
     cfg = config(tier)
     for sc in scenarios(tier):
         b = cfg["bound"]
-        if tier != "quick" and sc[0].startswith("S1"):
-            b = 1  # the lazy build has ~800 points per thread: bound 2 is covered on S2-S4
+        if tier != "quick" and not sc[2]:
+            b = 1  # no warm-up = the lazy build races (~1500 points per execution): bound 2 only on the warmed scenarios
         explore_scenario(sc, b, shard, nshards, acc)
     if tier != "quick" and shard < 4:
         # validates the reduction of the scheduling points: bound 1 with every library line visible
